@@ -90,6 +90,14 @@ class BuildError(Exception):
         self.output = output
 
 
+class HangError(Exception):
+    """the crate did not come back on a case"""
+    def __init__(self, case, seconds):
+        super().__init__("hang")
+        self.case = case
+        self.seconds = seconds
+
+
 def run_translator():
     rc, out = sh([sys.executable, os.path.join(VERIF, "tools", "gen_tables.py"), "--json"])
     info = {"status": "ok" if rc == 0 else "shape not recognised", "output": out.strip()[-2000:], "per_table": {}}
@@ -320,8 +328,33 @@ def run_cases(cases, tag, features=(), ic=False, release=True, shards=8, runner_
         p = subprocess.Popen([exe, base + ".impl", base + ".min"], stdin=open(base + ".cases", "rb"),
                              stdout=subprocess.PIPE, stderr=subprocess.STDOUT)
         procs.append((p, base, chunk))
+    # watchdog: the harness flushes one line per case; a shard that is alive but has not finished a
+    # case for STALL seconds is hung on the case after the last line it wrote -- the crate neither
+    # returned nor panicked on that input, which no property allows (the model is total)
+    stall = float(os.environ.get("VERIF_STALL_S", "300"))
+    last = {base: (0, time.time()) for _, base, _ in procs}
+    pending = list(procs)
+    while pending:
+        time.sleep(0.2)
+        for item in list(pending):
+            p, base, chunk = item
+            if p.poll() is not None:
+                pending.remove(item)
+                continue
+            try:
+                size = os.path.getsize(base + ".impl")
+            except OSError:
+                size = 0
+            if size != last[base][0]:
+                last[base] = (size, time.time())
+            elif time.time() - last[base][1] > stall:
+                for q, _, _ in procs:
+                    if q.poll() is None:
+                        q.kill()
+                done = len(open(base + ".impl", encoding="utf-8", errors="replace").read().splitlines())
+                raise HangError(chunk[min(done, len(chunk) - 1)], stall)
     for p, base, _ in procs:
-        out, _ = p.communicate(timeout=3600)
+        out, _ = p.communicate(timeout=60)
         if p.returncode != 0:
             raise BuildError("harness run failed", out.decode("utf-8", "replace")[-4000:])
     rprocs = []
